@@ -244,6 +244,12 @@ def roundtrip(tier):
             for extra in ([], ["--force-dot-license"]):
                 cases += 1
                 one_roundtrip(failures, "holder ending in a comment terminator", {name: body}, name, extra, [h], LICS[:1], [], may_fail=True)
+    # files that are not valid UTF-8 with non-ASCII requests: refused, or read back exactly
+    for name, data in (("latin1.py", b"# caf\xe9 au lait\nzz = 1  # BODY1\n"), ("latin1.c", b"/* na\xefve */\nint zz; /* BODY1 */\n")):
+        for extra, hs in (([], ["Jos\u00e9 Garc\u00eda"]), (["--copyright-prefix", "symbol"], ["Jane Doe"]), ([], ["Jane Doe"])):
+            cases += 1
+            one_roundtrip(failures, "file that is not valid UTF-8", {name: data}, name, extra, hs, LICS[:1], [],
+                          prefix=(extra[1] if extra else "spdx"), may_fail=True)
     tpl_extra = {".reuse/templates/extra.jinja2": "{% for copyright_line in copyright_lines %}\n{{ copyright_line }} and contributors\n{% endfor %}\n"
                                                   "{% for expression in spdx_expressions %}\nSPDX-License-Identifier: {{ expression }}\n{% endfor %}\n",
                  ".reuse/templates/literal.jinja2": "SPDX-FileCopyrightText: 1999 Template Owner\n{% for copyright_line in copyright_lines %}\n{{ copyright_line }}\n{% endfor %}\n"
